@@ -833,7 +833,11 @@ impl<'a> GenCtx<'a> {
 		for _ in 0..n {
 			// snapshot so that a rejected branch disappears completely (names included)
 			let snap_next = self.next_name;
+			let snap_exotic = self.exotic_next;
 			let snap_closed = self.closed.clone();
+			// (by value, not by "ids below the snapshot": the names outside ASCII have ids above every pool id, and a
+			// duration defined EARLIER under such a name must stay known as one — found by the thorough tier of C15)
+			let (snap_decimals, snap_durations) = (self.decimal_names.clone(), self.duration_names.clone());
 			let t = self.gen(depth - 1, true, true);
 			let mut reject = matches!(t, Ty::Union(_) | Ty::Duration { .. }) || matches!(&t, Ty::Ref(n) if self.duration_names.contains(n));
 			let mut ks = vec![];
@@ -845,9 +849,10 @@ impl<'a> GenCtx<'a> {
 			}
 			if reject {
 				self.next_name = snap_next;
+				self.exotic_next = snap_exotic;
 				self.closed = snap_closed;
-				self.decimal_names.retain(|n| *n < snap_next);
-				self.duration_names.retain(|n| *n < snap_next);
+				self.decimal_names = snap_decimals;
+				self.duration_names = snap_durations;
 				continue;
 			}
 			keys.extend(ks);
